@@ -3,7 +3,7 @@
    2^32; parsing an encoder-produced string and re-encoding returns the same
    string; needs_rehash is false exactly when both cost parameters match.
    (The hash inside the string is Argon2's output: C09.) *)
-From Dryoc Require Import Impl.PwhashStr Impl.Argon2 Impl.PwhashVerify Refine.PwhashStr Refine.PwhashVerify.
+From Dryoc Require Import Impl.PwhashStr Impl.Argon2 Impl.PwhashVerify Refine.PwhashStr Refine.PwhashVerify Spec.Argon2 Refine.PwhashStrRfc.
 Import PwhashStr.
 Open Scope Z_scope.
 
@@ -47,6 +47,13 @@ Theorem C10_str_is_self_describing : forall pw salt opslimit memlimit,
     parse (to_string 2 opslimit (memlimit / 1024) salt h) =
       Ok (mk_pwhash (Some h) (Some salt) (Some 2) (Some opslimit) (Some (memlimit / 1024)) (Some 1) (Some 19)).
 Proof. exact str_is_self_describing. Qed.
+
+(* ... and the hash in it is RFC 9106's Argon2id tag for those parameters (C09's specification) *)
+Theorem C10_str_hash_is_rfc9106 : forall pw salt opslimit memlimit,
+  str_params_ok pw salt opslimit memlimit -> 7 * (memlimit / 1024 / 4) <= 2 ^ 32 ->
+  PwhashVerify.str pw salt opslimit memlimit =
+  Ok (to_string 2 opslimit (memlimit / 1024) salt (Argon2Spec.argon2 2 opslimit (memlimit / 1024) 32 pw salt [] [])).
+Proof. exact str_is_rfc. Qed.
 
 Theorem C10_str_verify_own : forall pw salt opslimit memlimit,
   str_params_ok pw salt opslimit memlimit ->
